@@ -606,10 +606,13 @@ mod query {
     ) -> Result<Option<ByRevision>, Error> {
         let revision_id = *id;
         let mut stmt = db.prepare(
+            // Nb. Only the direct children of `$.revisions` are revisions, and
+            // redacted revisions are stored as `null`.
             "SELECT patches.id, patch, revisions.value AS revision
-             FROM patches, json_tree(patches.patch, '$.revisions') AS revisions
+             FROM patches, json_each(patches.patch, '$.revisions') AS revisions
              WHERE repo = ?1
              AND revisions.key = ?2
+             AND revisions.type != 'null'
             ",
         )?;
         stmt.bind((1, rid))?;
